@@ -475,6 +475,105 @@ func checkC09(p *core.Program, r *core.Report) {
 		}
 	}
 	r.Floor(R3, 2)
+	// ---- R4: one record per SKI, pinned only by the application
+	const R4 = "C09.R4 one-pin-record-per-ski"
+	r.Rule(R4, "the hub's get-or-create of the per-SKI service record looks the record up and inserts a new one in one critical section (else two first lookups create two records and the application's SetShipID lands on the one that is dropped); and no library package calls ServiceDetails.SetShipID - the stored id is the application's, never a value taken from mDNS or a handshake")
+	ensureCallSites(p)
+	if fSvc := p.Field("hub", "Hub", "remoteServices"); fSvc == nil {
+		r.Unresolved(R4, "hub.Hub.remoteServices")
+	} else {
+		isSvcMap := func(v ssa.Value) bool { f, _ := core.LoadedField(v); return f == fSvc }
+		nup := 0
+		for _, fn := range p.FuncsOf("hub") {
+			fn := fn
+			core.EachInstr(fn, func(in ssa.Instruction) {
+				mu, ok := in.(*ssa.MapUpdate)
+				if !ok || !isSvcMap(mu.Map) {
+					return
+				}
+				nup++
+				key := "insert into Hub.remoteServices in " + p.FnName(fn)
+				good := ""
+				core.EachInstr(fn, func(y ssa.Instruction) {
+					lk, ok := y.(*ssa.Lookup)
+					if !ok || !isSvcMap(lk.X) || !core.Dominates(y, in) || good == "ok" {
+						return
+					}
+					unlock := core.PathSearch(fn, y, func(z ssa.Instruction) bool {
+						_, op, _ := core.MutexOp(z)
+						if _, isDefer := z.(*ssa.Defer); isDefer {
+							return false
+						}
+						return op < 0
+					}, func(z ssa.Instruction) bool { return z == in }, nil)
+					if unlock != nil {
+						good = "split"
+					} else {
+						good = "ok"
+					}
+				})
+				if good == "" {
+					// the insert sits in a helper: each of its call sites must follow a lookup of the same map in the
+					// caller's critical section
+					sites := gCallSites[fn]
+					okAll := len(sites) > 0
+					for _, cs := range sites {
+						caller := cs.Parent()
+						found := false
+						core.EachInstr(caller, func(y ssa.Instruction) {
+							lk, ok := y.(*ssa.Lookup)
+							if !ok || !isSvcMap(lk.X) || !core.Dominates(y, cs) || found {
+								return
+							}
+							unlock := core.PathSearch(caller, y, func(z ssa.Instruction) bool {
+								if _, isDefer := z.(*ssa.Defer); isDefer {
+									return false
+								}
+								_, op, _ := core.MutexOp(z)
+								return op < 0
+							}, func(z ssa.Instruction) bool { return z == cs }, nil)
+							if unlock == nil {
+								found = true
+							}
+						})
+						if !found {
+							okAll = false
+						}
+					}
+					if okAll {
+						good = "ok"
+					}
+				}
+				switch good {
+				case "ok":
+					r.OK(R4, key, p.Pos(in.Pos()), "lookup and insert in one critical section")
+				case "split":
+					r.Fail(R4, key, p.Pos(in.Pos()), "the lookup that found no record and the insert of a new one are in different critical sections: two concurrent first lookups of one SKI each create a record, and a SHIP ID pinned on the losing one is forgotten (the handshake then accepts any id)")
+				default:
+					r.Fail(R4, key, p.Pos(in.Pos()), "a service record is stored without a preceding lookup of the same map")
+				}
+			})
+		}
+		if nup == 0 {
+			r.Fail(R4, "insert into Hub.remoteServices", "", "no site creates service records")
+		}
+	}
+	npin := 0
+	for _, pk := range []string{"hub", "ship", "mdns", "ws", "cert"} {
+		for _, fn := range p.FuncsOf(pk) {
+			fn := fn
+			core.EachInstr(fn, func(in ssa.Instruction) {
+				if core.CallsMethodNamed(in, apiPath, "ServiceDetails", "SetShipID") {
+					npin++
+					r.Fail(R4, "SetShipID called in "+p.FnName(fn), p.Pos(in.Pos()), "the library itself writes the stored SHIP ID of a service (e.g. from the unauthenticated mDNS TXT id): the next handshake is then checked against a value the application never supplied, and a matching id is never reported to it")
+				}
+			})
+		}
+	}
+	if npin == 0 {
+		r.OK(R4, "SetShipID is never called by the library", "", "only the application pins a SHIP ID")
+	}
+
 }
 
 // storedService: v is (on every path / from every caller) the result of (*Hub).ServiceForSKI.
